@@ -268,6 +268,20 @@ FAMILY = {
         "thorough": dict(Deposits="{0}", QosSet="{1}", Caps="{3}", Timeouts="{1, 2}", Freqs="{0, 3}", Totals="{1, 2}",
                          Dts="{1}", Thresholds="{1}", Kinds='{"valid", "bad"}', MaxHeight=6, MaxCtx=1, MaxBatch=3),
     },
+    "collateral": {
+        "module": "MC_collateral",
+        "quick": dict(Deposits="{0, 2}", QosSet="{1}", Caps="{3}", Timeouts="{1}", Freqs="{0}", Totals="{2}",
+                      Dts="{1, 2}", Thresholds="{1}", Kinds='{"bad", "none"}', MaxHeight=4, MaxCtx=1, MaxBatch=2),
+        "thorough": dict(Deposits="{0, 2}", QosSet="{1}", Caps="{3}", Timeouts="{1, 2}", Freqs="{0}", Totals="{2, 3}",
+                         Dts="{1, 2}", Thresholds="{1}", Kinds='{"valid", "bad", "none"}', MaxHeight=6, MaxCtx=1, MaxBatch=3),
+    },
+    "two": {
+        "module": "MC_two",
+        "quick": dict(Deposits="{0}", QosSet="{1}", Caps="{3}", Timeouts="{1}", Freqs="{0}", Totals="{2}",
+                      Dts="{1}", Thresholds="{1}", Kinds='{"valid", "none"}', MaxHeight=3, MaxCtx=2, MaxBatch=2),
+        "thorough": dict(Deposits="{0}", QosSet="{1}", Caps="{3}", Timeouts="{1, 2}", Freqs="{0}", Totals="{1, 2}",
+                         Dts="{1}", Thresholds="{1}", Kinds='{"valid", "bad", "none"}', MaxHeight=4, MaxCtx=2, MaxBatch=2),
+    },
     "money": {
         "module": "MC_money",
         "quick": dict(Deposits="{0}", QosSet="{1}", Caps="{1, 3}", Timeouts="{1}", Freqs="{0}", Totals="{2}",
